@@ -7,9 +7,7 @@ let rec nat_of_int n = if n <= 0 then O else S (nat_of_int (n - 1))
 let rec int_of_nat = function O -> 0 | S n -> 1 + int_of_nat n
 
 let fr_of_hex s : fr = of_Z (ZA.of_string ("0x" ^ s))
-let hex_of_fr (x : fr) : string =
-  let s = ZA.format "%x" (val0 x) in
-  String.make (64 - String.length s) '0' ^ s
+let hex_of_fr (x : fr) : string = ZA.format "%x" (val0 x)
 
 let st = ref initialized
 let split s = List.filter (fun x -> x <> "") (String.split_on_char ' ' s)
